@@ -885,10 +885,10 @@ impl UnifiedCommandExecutor {
             }
             
             SetCommand::SRandMember { key, count } => {
-                let count = count.unwrap_or(1);
-                let members = self.storage.srandmember(db, &key, count)?;
-                if count == 1 && !members.is_empty() {
-                    Ok(RespFrame::from_bytes(members[0].clone()))
+                // Without a count: one member as a bulk string, or nil. With a count (also 1): an array
+                let members = self.storage.srandmember(db, &key, count.unwrap_or(1))?;
+                if count.is_none() {
+                    Ok(members.into_iter().next().map(RespFrame::from_bytes).unwrap_or_else(RespFrame::null_bulk))
                 } else {
                     let frames: Vec<RespFrame> = members.into_iter()
                         .map(|m| RespFrame::from_bytes(m))
@@ -898,10 +898,9 @@ impl UnifiedCommandExecutor {
             }
             
             SetCommand::SPop { key, count } => {
-                let count = count.unwrap_or(1);
-                let members = self.storage.spop(db, key, count)?;
-                if count == 1 && !members.is_empty() {
-                    Ok(RespFrame::from_bytes(members[0].clone()))
+                let members = self.storage.spop(db, key, count.unwrap_or(1))?;
+                if count.is_none() {
+                    Ok(members.into_iter().next().map(RespFrame::from_bytes).unwrap_or_else(RespFrame::null_bulk))
                 } else {
                     let frames: Vec<RespFrame> = members.into_iter()
                         .map(|m| RespFrame::from_bytes(m))
